@@ -685,6 +685,8 @@ def floors(ctx, table):
     failure (generator rot), not a pass.  Only judged on an undisturbed run (no violation, nothing broken)."""
     if ctx.violations or ctx.broken or ctx.disagreements:
         return
-    low = ['%s=%d < %d' % (k, ctx.stats.get(k, 0), v) for k, v in table.items() if ctx.stats.get(k, 0) < v]
+    # the table records what a run reached when the check was built; the counts move with the seed, so the alarm is for a
+    # fall to under half of that (rot), not for a fluctuation
+    low = ['%s=%d < %d' % (k, ctx.stats.get(k, 0), max(1, v // 2)) for k, v in table.items() if ctx.stats.get(k, 0) < max(1, v // 2)]
     if low:
         raise common.MachineryError('generator reach below its floor: ' + ', '.join(low))
